@@ -267,6 +267,36 @@ def run(rep, tier, seed, keep=False):
                 if bad:
                     rep.violation('C10/expression/not-plain', '%s (t2l=%s, s2l=%s) returns %r' % (x, t2l, s2l, c), {'expr': x})
         rep.extra['expression_results_checked'] = ne
+        # ---- one parsed statement reused across contexts: a hand-assembled context without '#finalize' first, then a prepared one
+        from yaql.language import contexts as _ctxs
+        from yaql.standard_library import collections as _c, queries as _q, system as _sy, common as _cm, math as _m
+        nreuse = 0
+        for t2l, s2l in itertools.product((True, False), (True, False)):
+            e = eng.e[(t2l, s2l, True)]
+            for x in exprs[:14]:
+                for order in ('bare-first', 'prepared-first'):
+                    st = e(x)
+                    bare = _ctxs.Context()
+                    for _mod in (_sy, _cm, _m, _c, _q):
+                        try:
+                            _mod.register(bare)
+                        except TypeError:
+                            _mod.register(bare, False)
+                    seq = [bare, eng.ctx.create_child_context()] if order == 'bare-first' else [eng.ctx.create_child_context(), bare, eng.ctx.create_child_context()]
+                    for cx in seq:
+                        try:
+                            v = st.evaluate(context=cx)
+                        except Exception as ex:  # noqa
+                            if cx is not bare:
+                                rep.violation('C10/statement-reuse/raises', '%s reused (%s, t2l=%s, s2l=%s) raises %s on a prepared context' % (x, order, t2l, s2l, type(ex).__name__), {'expr': x})
+                            continue
+                        if cx is bare:
+                            continue           # no finaliser was provided there: nothing is promised
+                        nreuse += 1
+                        cc = census(v)
+                        if has_notplain(cc) or (t2l and "('tuple'" in repr(cc)) or (s2l and "('set'" in repr(cc)):
+                            rep.violation('C10/statement-reuse/not-plain', '%s reused (%s, t2l=%s, s2l=%s) returns %r on a prepared context' % (x, order, t2l, s2l, cc), {'expr': x})
+        rep.extra['statement_reuse_results_checked'] = nreuse
         # ---- the Python-side interface (yaql_interface.YaqlInterface): function results are finalised the same way
         from yaql import yaql_interface
         calls = [({'a': 1, 'b': [1, 2]}, 'keys', ()), ({'a': 1}, 'items', ()), ({'a': [1]}, 'values', ()), ([1, 2, 2], 'toSet', ()), ([1, [2, [3]]], 'flatten', ()),
